@@ -584,12 +584,14 @@ pub mod operator {
         dict_indices: BufferRef<u64>,
         dict_data: BufferRef<u8>,
         constant: BufferRef<Scalar<&str>>,
+        mode: u8,
         output: BufferRef<Scalar<i64>>,
     ) -> BoxedOperator {
         Box::new(InverseDictLookup {
             dict_indices,
             dict_data,
             constant,
+            mode,
             output,
         })
     }
